@@ -53,20 +53,35 @@ func reportHazard(lock int64, text string) {
 }
 
 // preAcquire runs before the real lock call (which may block for good).
-func preAcquire(id *int64, what string) {
+func preAcquire(id *int64, what, kind string) {
 	if !Enabled.Load() {
 		return
 	}
-	me := atomic.LoadInt64(id)
-	if me == 0 {
-		return
+	if atomic.LoadInt64(id) == 0 {
+		atomic.CompareAndSwapInt64(id, 0, nextID.Add(1))
 	}
+	me := atomic.LoadInt64(id)
 	g := goid()
 	gmu.Lock()
+	if _, ok := names[me]; !ok {
+		names[me] = kind + "@" + caller()
+	}
 	for _, h := range held[g] {
 		if h == me && !handedOn[me] {
 			reportHazard(me, fmt.Sprintf("%s of %s at %s by a goroutine that already holds it (not reentrant: blocks forever, for read locks as soon as a writer waits in between)", what, names[me], caller()))
 			break
+		}
+	}
+	// the acquisition order is recorded at the attempt: if the two orders meet for real, this call never returns
+	for _, h := range held[g] {
+		if h != me {
+			k := [2]int64{h, me}
+			if _, ok := edges[k]; !ok {
+				edges[k] = caller()
+			}
+			if site2, ok := edges[[2]int64{me, h}]; ok && !handedOn[me] && !handedOn[h] {
+				reportHazard(me, fmt.Sprintf("lock order inversion: %s then %s at %s; reverse order at %s", names[h], names[me], edges[k], site2))
+			}
 		}
 	}
 	gmu.Unlock()
@@ -176,7 +191,12 @@ type Mutex struct {
 	id int64
 }
 
-func (m *Mutex) Lock()   { perturb(); preAcquire(&m.id, "Lock"); m.mu.Lock(); acquire(&m.id, "Mutex") }
+func (m *Mutex) Lock() {
+	perturb()
+	preAcquire(&m.id, "Lock", "Mutex")
+	m.mu.Lock()
+	acquire(&m.id, "Mutex")
+}
 func (m *Mutex) Unlock() { release(&m.id); m.mu.Unlock(); perturb() }
 func (m *Mutex) TryLock() bool {
 	if m.mu.TryLock() {
@@ -193,14 +213,14 @@ type RWMutex struct {
 
 func (m *RWMutex) Lock() {
 	perturb()
-	preAcquire(&m.id, "Lock")
+	preAcquire(&m.id, "Lock", "RWMutex")
 	m.mu.Lock()
 	acquire(&m.id, "RWMutex")
 }
 func (m *RWMutex) Unlock() { release(&m.id); m.mu.Unlock(); perturb() }
 func (m *RWMutex) RLock() {
 	perturb()
-	preAcquire(&m.id, "RLock")
+	preAcquire(&m.id, "RLock", "RWMutex")
 	m.mu.RLock()
 	acquire(&m.id, "RWMutex")
 }
